@@ -37,7 +37,12 @@ def observe(ctx: Ctx):
     return cs, evs
 
 
+ONE_SHOT = ("it_12", "it_empty", "gen_12")
+
+
 def signature(prop: str, clause: str, e: dict) -> str:
+    if clause == "EvaluationRecorded" and e["b"] in ONE_SHOT:
+        return f"{prop}/{clause}/{e['kind']}/*~{e['b']}"  # independent of the left operand
     return f"{prop}/{clause}/{e['kind']}/{e['a']}~{e['b']}"
 
 
@@ -56,7 +61,10 @@ def run_clauses(ctx: Ctx, clauses: set[str], prop: str) -> None:
         if e["py"] != "Raise":
             ctx.nontriv((e["kind"], e["a"], e["b"]))
     traces = [{"ev": [e]} for e in evs]
-    verdicts = ctx.validate("TracerTrace", traces)
+    # TLC reports only the first violated invariant of a state: check exactly the requested clauses
+    cfg = ctx.work / f"TracerTrace.{prop}.cfg"
+    cfg.write_text("SPECIFICATION Spec\n" + "".join(f"INVARIANT {c}\n" for c in sorted(clauses)))
+    verdicts = ctx.validate("TracerTrace", traces, cfg=str(cfg))
     for idx, bad in sorted(verdicts.items()):
         for clause, _ in bad:
             if clause in clauses:
@@ -83,13 +91,23 @@ def run(ctx: Ctx) -> None:
     run_clauses(ctx, CLAUSES, "C04")
 
 
-def replay(ctx: Ctx, rec: dict) -> int:
+def replay_clauses(ctx: Ctx, rec: dict, clauses: set[str], prop: str) -> int:
+    from harness.core import load_findings  # noqa: PLC0415
+
     e = tv.evaluate(rec["behaviour"])
     print(describe(e))
-    v = ctx.validate("TracerTrace", [{"ev": [e]}])
-    bad = [c for c, _ in v.get(0, []) if c in CLAUSES]
+    cfg = ctx.work / f"TracerTrace.{prop}.cfg"
+    cfg.parent.mkdir(parents=True, exist_ok=True)
+    cfg.write_text("SPECIFICATION Spec\n" + "".join(f"INVARIANT {c}\n" for c in sorted(clauses)))
+    v = ctx.validate("TracerTrace", [{"ev": [e]}], cfg=str(cfg))
+    known = load_findings()
+    bad = [c for c, _ in v.get(0, []) if c in clauses and signature(prop, c, e) not in known]
     if bad:
-        print(f"VIOLATION property=C04 replay=(this) clauses={bad}")
+        print(f"VIOLATION property={prop} replay=(this) clauses={bad}")
         return 1
     print("OK")
     return 0
+
+
+def replay(ctx: Ctx, rec: dict) -> int:
+    return replay_clauses(ctx, rec, CLAUSES, "C04")
